@@ -139,7 +139,7 @@ func readBack(t reflect.Type, file []byte, reader string, pointer bool, failAt i
 			res.panicked = fmt.Sprint(r)
 		}
 		for _, v := range kept {
-			res.recheck = append(res.recheck, projectValue(v))
+			res.recheck = append(res.recheck, safeProject(v))
 		}
 		for _, b := range banks {
 			b.Close()
@@ -159,7 +159,7 @@ func readBack(t reflect.Type, file []byte, reader string, pointer bool, failAt i
 			return sentinel
 		}
 		v := reflect.NewAt(t, val).Elem()
-		res.delivered = append(res.delivered, projectValue(v))
+		res.delivered = append(res.delivered, safeProject(v))
 		cp := reflect.New(t).Elem()
 		cp.Set(v)
 		kept = append(kept, cp)
